@@ -1065,3 +1065,147 @@ def stream_writes_within_buffer(run, fns, rule='R13f', instance='write-length-is
                       'the stream is written %s bytes from %s.data(), not %s.size(): when the count is larger the output contains whatever lies behind the buffer in memory' % (ln[:40], src, src),
                       'length is %s.size()' % src)
     return n
+
+
+# ---------------------------------------------------------------------------------------------------------------------
+# locals bounded at a use: "0 <= start <= end <= size" decided from the shapes min / max / clamp-if
+def _minmax(fn, e):
+    """('min'|'max', a, b) when e is std::min/std::max(a, b) or the conditional written out (a < b ? a : b)."""
+    e = q.strip_casts(e)
+    if not is_node(e):
+        return None
+    if e['k'] == 'call' and (q.callee_name(e) or '').split('::')[-1] in ('min', 'max') and len(e.get('args', [])) == 2:
+        return ((q.callee_name(e) or '').split('::')[-1], e['args'][0], e['args'][1])
+    if e['k'] == 'cond':
+        c = q.cmp_atom(e['c'])
+        if c and c[0] in ('<', '<=', '>', '>='):
+            l, r = q.render(fn, q.strip_casts(c[1])), q.render(fn, q.strip_casts(c[2]))
+            a, b = q.render(fn, q.strip_casts(e['a'])), q.render(fn, q.strip_casts(e['b']))
+            if {l, r} == {a, b} and l != r:
+                picks_left = (a == l)
+                small = (c[0] in ('<', '<=')) == picks_left
+                return ('min' if small else 'max', e['a'], e['b'])
+    return None
+
+
+def upper_bounds(fn, e, depth=0):
+    """Names (rendered locals/captures) known to be >= e by the shape of e; '*' stands for 'any non-negative bound' (e is
+    a literal 0)."""
+    e = q.strip_casts(e)
+    if not is_node(e) or depth > 8:
+        return set()
+    while e['k'] == 'construct' and len(e.get('args', [])) == 1:
+        e = q.strip_casts(e['args'][0])
+    mm = _minmax(fn, e)
+    if mm:
+        a, b = upper_bounds(fn, mm[1], depth + 1), upper_bounds(fn, mm[2], depth + 1)
+        if mm[0] == 'min':
+            return a | b
+        return (a & b) | (a if '*' in b else set()) | (b if '*' in a else set())
+    if e['k'] == 'int' and e.get('v') == 0:
+        return {'*'}
+    if e['k'] in ('ref', 'member'):
+        return {q.render(fn, e)}
+    return set()
+
+
+def nonneg(fn, e, nonneg_names, depth=0):
+    e = q.strip_casts(e)
+    if not is_node(e) or depth > 8:
+        return False
+    while e['k'] == 'construct' and len(e.get('args', [])) == 1:
+        e = q.strip_casts(e['args'][0])
+    mm = _minmax(fn, e)
+    if mm:
+        a, b = nonneg(fn, mm[1], nonneg_names, depth + 1), nonneg(fn, mm[2], nonneg_names, depth + 1)
+        return (a or b) if mm[0] == 'max' else (a and b)
+    if e['k'] == 'int':
+        return isinstance(e.get('v'), int) and e['v'] >= 0
+    return e['k'] in ('ref', 'member') and q.render(fn, e) in nonneg_names
+
+
+def _clamp_ifs(fn, var, want):
+    """Condition atoms of `if (var > B) var = B;` (want='upper', any B: returned with B) or `if (var < 0) var = 0;`
+    (want='lower')."""
+    out = []
+    for n in fn.all_nodes():
+        if n['k'] != 'if' or n.get('else') is not None:
+            continue
+        c = q.cmp_atom(n.get('cond'))
+        if not c:
+            continue
+        op, l, r = c
+        rl, rr = q.render(fn, q.strip_casts(l)), q.render(fn, q.strip_casts(r))
+        if rr == var and rl != var:
+            op, rl, rr, r = q.SWAP[op], rr, rl, l
+        if rl != var:
+            continue
+        body = [x for x in walk(n.get('then')) if (x['k'] == 'bin' and x['op'] == '=') or (x['k'] == 'call' and x.get('opc') == '=')]
+        if len(body) != 1:
+            continue
+        b = body[0]
+        lhs, rhs = (b['lhs'], b['rhs']) if b['k'] == 'bin' else (b['args'][0], b['args'][1])
+        if q.render(fn, q.strip_casts(lhs)) != var:
+            continue
+        if want == 'upper' and op in ('>', '>=') and q.render(fn, q.strip_casts(rhs)) == rr:
+            out.append((n['cond'], rr))
+        if want == 'lower' and op in ('<', '<=') and nonneg(fn, rhs, set()) and nonneg(fn, r, set()):
+            out.append((n['cond'], '0'))
+    return out
+
+
+def local_bounded_at(fn, did, name, use, upper=None, lower0=False, nonneg_names=()):
+    """Is local `name` bounded at `use`: every definition or clamp-if that can be the LAST one evaluated before the use
+    establishes name <= upper (when given) and name >= 0 (when lower0).  Returns (ok, offending site or None)."""
+    defs = q.local_defs(fn, did)
+    ups = _clamp_ifs(fn, name, 'upper') if upper else []
+    lows = _clamp_ifs(fn, name, 'lower') if lower0 else []
+    events = [s for s, _ in defs] + [c for c, _ in ups] + [c for c, _ in lows]
+    ev, bare = q.reaching_events(fn, events, use)
+    if bare:
+        return False, None
+    for e in ev:
+        d = [(s, r) for s, r in defs if s is e]
+        if d:
+            s, r = d[0]
+            if upper:
+                ub = upper_bounds(fn, r)
+                okd = upper in ub or '*' in ub
+                if not okd:      # ... unless an upper clamp-if for it was passed earlier and this def keeps the bound (not tracked): no
+                    return False, s
+            if lower0 and not nonneg(fn, r, set(nonneg_names)):
+                return False, s
+        else:
+            # the last event is a clamp-if condition (its false branch): it only establishes ITS side - the other side has
+            # to hold for the definitions reaching the condition
+            is_up = any(c is e for c, b in ups if b == upper)
+            is_low = any(c is e for c, _ in lows)
+            if upper and not is_up:
+                ok2, s2 = local_bounded_at_before(fn, did, name, e, upper, None, nonneg_names, defs, ups, lows)
+                if not ok2:
+                    return False, s2
+            if lower0 and not is_low:
+                ok2, s2 = local_bounded_at_before(fn, did, name, e, None, True, nonneg_names, defs, ups, lows)
+                if not ok2:
+                    return False, s2
+    return True, None
+
+
+def local_bounded_at_before(fn, did, name, at, upper, lower0, nonneg_names, defs, ups, lows):
+    events = [s for s, _ in defs] + ([c for c, b in ups if b == upper] if upper else []) + ([c for c, _ in lows] if lower0 else [])
+    events = [e for e in events if e is not at]
+    ev, bare = q.reaching_events(fn, events, at)
+    if bare:
+        return False, None
+    for e in ev:
+        d = [(s, r) for s, r in defs if s is e]
+        if not d:
+            continue        # a clamp-if of the wanted side
+        s, r = d[0]
+        if upper:
+            ub = upper_bounds(fn, r)
+            if not (upper in ub or '*' in ub):
+                return False, s
+        if lower0 and not nonneg(fn, r, set(nonneg_names)):
+            return False, s
+    return True, None
